@@ -43,7 +43,7 @@ fn pick_keys(n: usize) -> (Vec<String>, serde_json::Value) {
 fn alphabet(tier: Tier) -> Vec<&'static str> {
     let mut v = vec![
         "X SET ka 1", "X SET kb x", "X GET ka", "X GET kb", "X GET kc", "X APPEND ka z", "X INCR ka", "X DEL ka", "X DEL ka kb", "X DEL ka ka kc",
-        "X EXISTS ka kb kc", "X EXISTS ka ka", "X MGET ka kb kc", "X MSET ka 1 kb 2 kc 3", "X MSETNX ka 1 kc 2", "X MSETNX kc 9",
+        "X EXISTS ka kb kc", "X EXISTS ka ka", "X EXISTS ka kc ka", "X MGET ka kc ka", "X MSET ka 1 kc 2 ka 3", "X MGET ka kb kc", "X MSET ka 1 kb 2 kc 3", "X MSETNX ka 1 kc 2", "X MSETNX kc 9",
         "X RPUSH ka a b", "X RPUSH kc q", "X LRANGE ka 0 -1", "X LRANGE kc 0 -1", "X RPOPLPUSH ka kc", "X LMOVE kc ka LEFT RIGHT",
         "X RENAME ka kc", "X RENAMENX kc kb", "X SADD kc m", "X SMEMBERS kc", "X HSET kb f v", "X HGETALL kb", "X ZADD kc 1 m",
         "X SORT ka STORE kc", "X KEYS *", "X KEYS kc", "X KEYS [k]ey[0-9]", "X KEYS k?y*", "SCANALL", "SCANALL 1", "X DBSIZE", "X RANDOMKEY", "X FLUSHDB", "X TYPE ka", "X TYPE kc",
@@ -349,7 +349,7 @@ fn main() {
         let (keys, info) = pick_keys(n);
         let mut bfs = Bfs::new(alpha.len(), depth);
         bfs.deadline = Some(Instant::now() + budget);
-        bfs.probe_duplicates = args.tier == Tier::Quick;
+        bfs.probe_duplicates = args.tier == Tier::Quick && n == 2;
         let stats = bfs.run(&format!("t={T0} <empty> scripts=[:0]"), |hist, o| {
             let h: Vec<&str> = hist.iter().map(|i| alpha[*i as usize]).collect();
             let op = alpha[o as usize];
